@@ -109,7 +109,7 @@ func runOneMutant(id, repo, vdir, patch string) mutantResult {
 		hit := false
 		for _, r := range rules {
 			for _, e := range strings.Split(res.Expect, ",") {
-				if strings.HasPrefix(r, strings.TrimSpace(e)+" ") {
+				if e = strings.TrimSpace(e); e != "" && strings.HasPrefix(r, e+" ") {
 					hit = true
 				}
 			}
@@ -127,10 +127,27 @@ func runMutantControls(id, repo, vdir string, r *Report) {
 	if os.Getenv("VCHECK_NO_CONTROLS") != "" {
 		return
 	}
-	patches, _ := filepath.Glob(filepath.Join(vdir, "mutants", id, "*.patch"))
-	sort.Strings(patches)
+	// A mutant belongs to every property that owns one of the rules it is
+	// expected to trip.
+	all, _ := filepath.Glob(filepath.Join(vdir, "mutants", "*.patch"))
+	sort.Strings(all)
+	owned := map[string]bool{}
+	if chk := registry[id]; chk != nil {
+		for _, ru := range chk.Rules {
+			owned[ru] = true
+		}
+	}
+	var patches []string
+	for _, p := range all {
+		for _, e := range strings.Split(patchHeader(p, "expect"), ",") {
+			if owned[strings.TrimSpace(e)] {
+				patches = append(patches, p)
+				break
+			}
+		}
+	}
 	results := make([]mutantResult, len(patches))
-	sem := make(chan struct{}, 6)
+	sem := make(chan struct{}, 8)
 	var wg sync.WaitGroup
 	for i, p := range patches {
 		wg.Add(1)
